@@ -21,6 +21,8 @@ Clause ↔ sentence of the statement:
 * `C16_pages`, `C16_page_count`, `C16_breaks`, `C16_one_pict_in_order`   "one per page in the given order"
 * `C16_placement_*` "title, footnote and source accompany exactly the pages selected"
 * `C16_doc_ok`     all of the above at once, as the oracle `docOk` on the model's own output
+* `Props/C16pos.lean`  "in the given order … positionally", position by position: page `j` shows format, bytes, width
+  and height of position `j` and depends on nothing else (a file may be listed several times)
 -/
 namespace Props.C16
 open Model.Figure Proofs.Figure
